@@ -49,6 +49,14 @@ def script(rng, case):
                             'flow': rng.choice([['all'], ['none'], ['none'],
                                                 ['new']])}})
     trig = [a for a in sc if a['cmd'] == 'force_trigger_tasks']
+    merge = [a for a in trig if a['args']['flow'][0] in ('new', '2')]
+    if merge and rng.random() < 0.5:
+        # flows merged into pooled tasks and one flow taken away again
+        # within the same iteration
+        a = rng.choice(merge)
+        sc.insert(sc.index(a) + 1, {
+            'at': a['at'], 'cmd': 'remove_tasks',
+            'args': {'tasks': list(a['args']['tasks']), 'flow': ['1']}})
     if trig and rng.random() < 0.3:
         # a reload requested in the iteration of a trigger, or the next one
         a = rng.choice(trig)
